@@ -4,7 +4,8 @@
 # /repo's HEAD first) and a copy of the harness under /var/tmp/altsim-mut is built against that worktree.
 # For exploration while long runs use /repo; a kept change is confirmed once more with try_mutant.sh.
 patch="$1"; shift
-W=/tmp/vw; M=/var/tmp/altsim-mut
+# SCRATCH_ID=<n> selects a private pair of scratch directories (parallel shards of seeded_matrix.sh)
+W=/tmp/vw${SCRATCH_ID:-}; M=/var/tmp/altsim-mut${SCRATCH_ID:-}
 [ -d $W ] || git -C /repo worktree add -q --detach $W HEAD || exit 2
 head=$(git -C /repo rev-parse HEAD)
 ( cd $W && git checkout -q -f --detach "$head" && git clean -fdq rust/altrios-core/src rust/altrios-core/tests ) || exit 2
